@@ -43,6 +43,11 @@ type Ev struct {
 	Hb  []int   `json:"hb"`
 	Hn  []int   `json:"hn"`
 	Hc  int     `json:"hc"` // number of later calls made while the result was held
+	// reading is pure: io=1 the octets handed to the library (the slice / the element's Buffer it was given, not a copy)
+	// read back after the hold period; io=2 additionally the result of calling the same getter once more on the SAME element
+	Io  int     `json:"io"`
+	Ib  []int   `json:"ib"`
+	Rts [][]int `json:"rts"`
 }
 
 type Case struct {
@@ -126,6 +131,12 @@ func fill(e *Ev) {
 	if e.Hn == nil {
 		e.Hn = []int{}
 	}
+	if e.Ib == nil {
+		e.Ib = []int{}
+	}
+	if e.Rts == nil {
+		e.Rts = [][]int{}
+	}
 }
 
 func emit(op string, ts [][]int, b []int, n []int, call func() reader) {
@@ -189,6 +200,7 @@ func flushOne() {
 			ev.Fatal("panic while re-reading the held result of %s: %s", p.e.Op, pi.Kind)
 		}
 		p.e.Hts, p.e.Hb, p.e.Hn = h.Ots, h.Ob, h.On
+		p.e.Io, p.e.Ib, p.e.Rts = h.Io, h.Ib, h.Rts
 	}
 	p.e.Hc = nCalls - p.seq
 	fill(&p.e)
@@ -216,8 +228,9 @@ func plmnCalls(mcc, mnc string, wire []int) {
 	}
 	if wire != nil {
 		emit("PlmnIDToString", nil, wire, nil, func() reader {
-			r := nasConvert.PlmnIDToString(ev.Bytes(wire))
-			return func(e *Ev) { e.Ots = texts(r) }
+			in := ev.Bytes(wire)
+			r := nasConvert.PlmnIDToString(in)
+			return func(e *Ev) { e.Ots = texts(r); e.Io, e.Ib = 1, ev.Ints(in) }
 		})
 		emit("RT.PlmnWire", nil, wire, nil, func() reader {
 			s := nasConvert.PlmnIDToString(ev.Bytes(wire))
@@ -267,8 +280,10 @@ func amfRT(n []int, t string) {
 
 func gutiToString(wire []int) {
 	emit("GutiToStringWithError", nil, wire, nil, func() reader {
-		guami, guti, err := nasConvert.GutiToStringWithError(ev.Bytes(wire))
+		in := ev.Bytes(wire)
+		guami, guti, err := nasConvert.GutiToStringWithError(in)
 		return func(e *Ev) {
+			e.Io, e.Ib = 1, ev.Ints(in)
 			e.Err = err != nil
 			if err == nil {
 				mcc, mnc := "", ""
@@ -326,25 +341,49 @@ func gutiRT(wire []int, t string) {
 	}
 }
 
+// again runs a repeated reading under panic capture (a library panic there is logged as the text "<panic>")
+func again(f func() [][]int) [][]int {
+	var r [][]int
+	if pi := ev.Guard(func() { r = f() }); pi != nil {
+		if !pi.Lib {
+			ev.Fatal("panic outside the library in a repeated reading: %s (%s)", pi.Kind, pi.Fn)
+		}
+		return texts("<panic>")
+	}
+	return r
+}
+
 func mi(wire []int) *nasType.MobileIdentity5GS {
 	return &nasType.MobileIdentity5GS{Len: uint16(len(wire)), Buffer: ev.Bytes(wire)}
 }
 
 func miGetter(name string, wire []int, f func(a *nasType.MobileIdentity5GS) string) {
 	emit("MI."+name, nil, wire, nil, func() reader {
-		r := f(mi(wire))
-		return func(e *Ev) { e.Ots = texts(r) }
+		a := mi(wire)
+		r := f(a)
+		return func(e *Ev) {
+			e.Ots = texts(r)
+			e.Io, e.Ib, e.Rts = 2, ev.Ints(a.Buffer), again(func() [][]int { return texts(f(a)) })
+		}
 	})
 }
 
 func miCommon(wire []int) {
 	emit("MI.GetTypeOfIdentity", nil, wire, nil, func() reader {
-		s, err := mi(wire).GetTypeOfIdentity()
-		return func(e *Ev) { e.Ots, e.Err = texts(s), err != nil }
+		a := mi(wire)
+		s, err := a.GetTypeOfIdentity()
+		return func(e *Ev) {
+			e.Ots, e.Err = texts(s), err != nil
+			e.Io, e.Ib, e.Rts = 2, ev.Ints(a.Buffer), again(func() [][]int { s2, _ := a.GetTypeOfIdentity(); return texts(s2) })
+		}
 	})
 	emit("MI.GetMobileIdentity", nil, wire, nil, func() reader {
-		id, typ, err := mi(wire).GetMobileIdentity()
-		return func(e *Ev) { e.Ots, e.Err = texts(id, typ), err != nil }
+		a := mi(wire)
+		id, typ, err := a.GetMobileIdentity()
+		return func(e *Ev) {
+			e.Ots, e.Err = texts(id, typ), err != nil
+			e.Io, e.Ib, e.Rts = 2, ev.Ints(a.Buffer), again(func() [][]int { i2, t2, _ := a.GetMobileIdentity(); return texts(i2, t2) })
+		}
 	})
 }
 
@@ -364,8 +403,12 @@ func miGuti(wire []int) {
 func miSTmsi(wire []int) {
 	miCommon(wire)
 	emit("MI.Get5GSTMSI", nil, wire, nil, func() reader {
-		s, typ, err := mi(wire).Get5GSTMSI()
-		return func(e *Ev) { e.Ots, e.Err = texts(s, typ), err != nil }
+		a := mi(wire)
+		s, typ, err := a.Get5GSTMSI()
+		return func(e *Ev) {
+			e.Ots, e.Err = texts(s, typ), err != nil
+			e.Io, e.Ib, e.Rts = 2, ev.Ints(a.Buffer), again(func() [][]int { s2, t2, _ := a.Get5GSTMSI(); return texts(s2, t2) })
+		}
 	})
 	miGetter("GetAmfSetID", wire, (*nasType.MobileIdentity5GS).GetAmfSetID)
 	miGetter("GetAmfPointer", wire, (*nasType.MobileIdentity5GS).GetAmfPointer)
@@ -374,8 +417,9 @@ func miSTmsi(wire []int) {
 
 func suciCalls(wire []int) {
 	emit("SuciToStringWithError", nil, wire, nil, func() reader {
-		s, plmn, err := nasConvert.SuciToStringWithError(ev.Bytes(wire))
-		return func(e *Ev) { e.Ots, e.Err = texts(s, plmn), err != nil }
+		in := ev.Bytes(wire)
+		s, plmn, err := nasConvert.SuciToStringWithError(in)
+		return func(e *Ev) { e.Ots, e.Err = texts(s, plmn), err != nil; e.Io, e.Ib = 1, ev.Ints(in) }
 	})
 	miCommon(wire)
 	miGetter("GetSUCI", wire, (*nasType.MobileIdentity5GS).GetSUCI)
@@ -388,8 +432,9 @@ func suciCalls(wire []int) {
 
 func peiCalls(wire []int) {
 	emit("PeiToStringWithError", nil, wire, nil, func() reader {
-		s, err := nasConvert.PeiToStringWithError(ev.Bytes(wire))
-		return func(e *Ev) { e.Ots, e.Err = texts(s), err != nil }
+		in := ev.Bytes(wire)
+		s, err := nasConvert.PeiToStringWithError(in)
+		return func(e *Ev) { e.Ots, e.Err = texts(s), err != nil; e.Io, e.Ib = 1, ev.Ints(in) }
 	})
 	miCommon(wire)
 	miGetter("GetIMEI", wire, (*nasType.MobileIdentity5GS).GetIMEI)
